@@ -46,7 +46,14 @@ ASSUMPTIONS = [
     "bounding box, are not judged (rasteriser freedom / documented 'serves full source image')",
     "a coverage without clip limits the source to the coverage's bounding box; group sources replace the children's "
     "sources (doc/configuration.rst); min_res/max_res never equal to a request resolution",
-    "the same layer is never requested twice in one request, a group never together with its own descendants",
+    "the same layer / source / cache is never drawn twice in one request, a group never together with its own descendants "
+    "(the service keeps one entry per layer name; WMS semantics of duplicates are outside the statement)",
+    "the defeated twin differs from the plain configuration only in upstream host names and in `image.transparent: true` on "
+    "direct sources (what is asked upstream stays req.transparent), plus the transparent top layer `ztop` in the request",
+    "a failing request is shrunk before it is reported: requested layers are dropped and optional configuration features "
+    "(opacity, colour key, coverage, clip, resolution ranges, extra sources, group children, format, bgcolor) are removed "
+    "one at a time - by regenerating and reloading both configurations - as long as the same kind of failure (same wrong "
+    "variants, same observed shortcuts) remains; `mech` describes the shrunk case",
     "caches: meta_size 1, no buffer, nearest resampling, requests cover whole tiles of one level",
 ]
 
